@@ -357,6 +357,9 @@ func ParseSliceHeader(nalu []byte, spsMap map[uint32]*SPS, ppsMap map[uint32]*PP
 		pps.SliceGroupMapType <= 5 {
 		picSizeInMapUnits := pps.PicSizeInMapUnitsMinus1 + 1
 		sliceGroupChangeRate := pps.SliceGroupChangeRateMinus1 + 1
+		if sliceGroupChangeRate == 0 { // slice_group_change_rate_minus1 of the PPS is the maximum value of its type
+			return nil, fmt.Errorf("slice_group_change_rate_minus1 %d of the PPS is too large", pps.SliceGroupChangeRateMinus1)
+		}
 		nrBits := int(math.Ceil(math.Log2(float64(picSizeInMapUnits/sliceGroupChangeRate + 1))))
 		sh.SliceGroupChangeCycle = uint32(r.Read(nrBits))
 	}
